@@ -125,6 +125,8 @@ def replay_file(chk, path, relevant, signature):
     rep = json.load(open(path))["replay"]
     vlib.build_harness()
     a = rep.get("replay_args", {})
+    if a.get("checkpoint_ops"):
+        R.CHECKPOINT_OPS = a["checkpoint_ops"]
     res = replay(chk, [{"hist": rep["hist"]}], schema=a.get("schema", "pk"), config_ops=a.get("config_ops"), reopen_ops=a.get("reopen_ops"),
                  returning=bool(a.get("returning")))
     st = judge(chk, res, relevant, signature)
@@ -196,7 +198,7 @@ def standard(chk, relevant, signature, focus=None, with_txn=False, with_reopen=T
              weighted_walks=False):
     """The common shape of a Relational.tla check: per-transition enumeration + random walks, replay, judge."""
     thorough_tier = chk.tier == "thorough"
-    chk.replay_args = {"schema": schema, "config_ops": config_ops, "reopen_ops": reopen_ops}
+    chk.replay_args = {"schema": schema, "config_ops": config_ops, "reopen_ops": reopen_ops, "checkpoint_ops": list(R.CHECKPOINT_OPS)}
     chk.assumptions += ["domain: id in 1..3, a in {NULL,1,2}, b in {NULL,0,1,5}; table t(id INT PRIMARY KEY, a INT UNIQUE, b INT NOT NULL CHECK (b < 3))",
                         "each behaviour judges its LAST step; the prefix must follow the model (otherwise the behaviour is abandoned and counted)",
                         "SQL renderer and result normaliser in lib/relational.py are trusted"] + list(extra_assumptions)
